@@ -150,7 +150,7 @@ PROPS['C08'] = dict(
 
 PROPS['C04'] = dict(
     modules=['contracts.dtw_py', 'contracts.dtw_c'],
-    contracts=['dtw.warping_paths', 'dtw.warping_paths#endpsi'],
+    contracts=['dtw.warping_paths', 'dtw.warping_paths#endpsi', 'dtw.warping_paths#psineg'],
     lemmas=['RowAllInf', 'RowLeadInf', 'RowMinLower', 'RowMinGreatest', 'ArgMinRow', 'PsiColLower', 'PsiColGreatest', 'ArgMinCol',
             'PsiColZero', 'RowMinGreatestSqrt', 'ArgMinRowSqrt', 'PsiColGreatestSqrt', 'ArgMinColSqrt'],
     bounded=dict(_CML, **{'c-wrapper-native-sweep': lambda run: _native_sweep(
@@ -168,10 +168,13 @@ PROPS['C04'] = dict(
                'result_fn of Dend (the value dtw.distance is proved to return), selected by np.argmin over the reversed last '
                'column / row (argmin modelled as "first minimal element", 13 induction / derived lemmas connect it to the folds '
                'PsiCol / WRowMin, also through the element-wise square root), for keep_int_repr True and False, psi_neg=False. '
-               'The -1 marking (psi_neg=True, NumPy slice assignment) is not under contract; the C cost-matrix family is bounded only.',
+               'Third stage (dtw.warping_paths#psineg): the -1 marking is a run on the relaxed end of the last column or row that is '
+               'closed towards the corner, consists of cells strictly worse than the returned value, and is preceded by the cell '
+               'holding that value; every other cell holds result_fn(W). One known finding (infinite distance: KF-C04-3). '
+               'The C cost-matrix family is bounded only.',
     trusted_base=[PY_A1, A3_NUMPY, A7],
     assumptions=[PY_A1, A3_NUMPY, A7],
-    not_decided=['Python: the -1 marking of psi_neg=True, max_dist (C03)',
+    not_decided=['Python: max_dist (C03)',
                  'C: unbounded proof of dtw_warping_paths_ndim / dtw_expand_wps(_slice) (bounded only)'],
 )
 
@@ -350,7 +353,7 @@ def _c20_native(run):
     import os
     here = os.path.dirname(os.path.abspath(__file__))
     n = 25 if run.tier == 'quick' else 200
-    p = subprocess.run(['/venv/bin/python', os.path.join(here, 'bounded', 'purity_native.py'), run.program.repo, str(run.seed), str(n)],
+    p = subprocess.run(['/venv/bin/python', os.path.join(here, 'bounded', 'purity_native.py'), run.program.native_root(), str(run.seed), str(n)],
                        capture_output=True, text=True, timeout=3000)
     line = [l for l in p.stdout.splitlines() if l.startswith('@@JSON@@')]
     if not line:
@@ -396,7 +399,7 @@ def _native_sweep(script, rule, n_quick, n_thorough):
         import os
         here = os.path.dirname(os.path.abspath(__file__))
         n = n_quick if run.tier == 'quick' else n_thorough
-        p = subprocess.run(['/venv/bin/python', os.path.join(here, 'bounded', script), run.program.repo, str(run.seed), str(n)],
+        p = subprocess.run(['/venv/bin/python', os.path.join(here, 'bounded', script), run.program.native_root(), str(run.seed), str(n)],
                            capture_output=True, text=True, timeout=6000)
         line = [l for l in p.stdout.splitlines() if l.startswith('@@JSON@@')]
         if not line:
